@@ -304,11 +304,15 @@ pub fn p_canonization(num_vars: usize, table: &mut [u64], best: &mut [u64], res_
             res_perm[i] = i as u8;
         }
     } else if num_vars <= 6 {
+        #[cfg(volute_verif)]
+        verif_record(SWAPS[num_vars], &[]);
         let best_ind =
             p_canonization_ind(num_vars, &mut table[0..1], &mut best[0..1], SWAPS[num_vars]);
         p_canonization_res(num_vars, res_perm, SWAPS[num_vars], best_ind);
     } else {
         let all_swaps = generate_swaps(num_vars, true);
+        #[cfg(volute_verif)]
+        verif_record(&all_swaps, &[]);
         let best_ind = p_canonization_ind(num_vars, table, best, &all_swaps);
         p_canonization_res(num_vars, res_perm, &all_swaps, best_ind);
     }
@@ -326,11 +330,15 @@ pub fn n_canonization(num_vars: usize, table: &mut [u64], best: &mut [u64]) -> u
             0
         }
     } else if num_vars <= 6 {
+        #[cfg(volute_verif)]
+        verif_record(&[], FLIPS[num_vars]);
         let best_ind =
             n_canonization_ind(num_vars, &mut table[0..1], &mut best[0..1], FLIPS[num_vars]);
         n_canonization_res(num_vars, FLIPS[num_vars], best_ind)
     } else {
         let all_flips = generate_gray_flips(num_vars, true);
+        #[cfg(volute_verif)]
+        verif_record(&[], &all_flips);
         let best_ind = n_canonization_ind(num_vars, table, best, &all_flips);
         n_canonization_res(num_vars, &all_flips, best_ind)
     }
@@ -349,6 +357,8 @@ pub fn npn_canonization(
         }
         n_canonization(num_vars, table, best)
     } else if num_vars <= 6 {
+        #[cfg(volute_verif)]
+        verif_record(SWAPS[num_vars], FLIPS[num_vars]);
         let best_ind = npn_canonization_ind(
             num_vars,
             &mut table[0..1],
@@ -366,9 +376,28 @@ pub fn npn_canonization(
     } else {
         let all_swaps = generate_swaps(num_vars, true);
         let all_flips = generate_gray_flips(num_vars, true);
+        #[cfg(volute_verif)]
+        verif_record(&all_swaps, &all_flips);
         let best_ind = npn_canonization_ind(num_vars, table, best, &all_swaps, &all_flips);
         npn_canonization_res(num_vars, res_perm, &all_swaps, &all_flips, best_ind)
     }
+}
+
+#[cfg(volute_verif)]
+thread_local! {
+    static VERIF_LAST_SEQ: std::cell::RefCell<(Vec<u8>, Vec<u8>)> = std::cell::RefCell::new((Vec::new(), Vec::new()));
+}
+
+/// Verification hook: remember the sequences a canonization call is about to walk
+#[cfg(volute_verif)]
+fn verif_record(swaps: &[u8], flips: &[u8]) {
+    VERIF_LAST_SEQ.with(|c| *c.borrow_mut() = (swaps.to_vec(), flips.to_vec()));
+}
+
+/// Verification hook: the sequences walked by the last canonization call on this thread (and reset)
+#[cfg(volute_verif)]
+pub fn verif_last_sequences() -> (Vec<u8>, Vec<u8>) {
+    VERIF_LAST_SEQ.with(|c| std::mem::take(&mut *c.borrow_mut()))
 }
 
 /// Verification hook: the swap and flip sequences used by the canonization for this number of variables
